@@ -4,6 +4,7 @@ import (
 	"fmt"
 	"math/big"
 	"sort"
+	"time"
 
 	sdk "github.com/cosmos/cosmos-sdk/types"
 
@@ -31,6 +32,7 @@ type appAsset struct{ App, Asset uint64 }
 // cdpSnap is a read-only typed snapshot of the CDP-related state at a quiescent point.
 type cdpSnap struct {
 	Height    int64
+	Time      time.Time // header time of the open block
 	Vaults    map[uint64]vaulttypes.Vault
 	Stable    map[uint64]vaulttypes.StableMintVault
 	Mappings  map[appAsset]vaulttypes.AppExtendedPairVaultMappingData // key (app, extended pair)
@@ -63,12 +65,31 @@ type cdpSnap struct {
 
 func modLabel(name string) string { return "mod:" + name }
 
+// voidLabel is the snapshot label of the empty address (nobody holds its key).
+const voidLabel = "addr:empty"
+
+// reserveApps: the apps whose generation-2 reserve funds are snapshotted (the CDP apps and the apps that can only
+// host externally initiated auctions).
+func (u *cdpU) reserveApps() []uint64 {
+	out := append([]uint64(nil), u.cdpApps...)
+	for _, a := range u.aucApps {
+		dup := false
+		for _, b := range out {
+			dup = dup || a == b
+		}
+		if !dup {
+			out = append(out, a)
+		}
+	}
+	return out
+}
+
 func (u *cdpU) snap() *cdpSnap { return u.snapAt(u.c.Ctx()) }
 
 // snapAt reads the snapshot from the given context (e.g. the committed state).
 func (u *cdpU) snapAt(ctx sdk.Context) *cdpSnap {
 	c := u.c
-	s := &cdpSnap{Height: c.Header.Height,
+	s := &cdpSnap{Height: c.Header.Height, Time: c.Header.Time,
 		Vaults: map[uint64]vaulttypes.Vault{}, Stable: map[uint64]vaulttypes.StableMintVault{}, Mappings: map[appAsset]vaulttypes.AppExtendedPairVaultMappingData{},
 		LockedV1: map[uint64]liqtypes.LockedVault{}, LockedV2: map[uint64]liqV2types.LockedVault{}, DutchV1: map[uint64]auctiontypes.DutchAuction{},
 		SurplusV1: map[uint64]auctiontypes.SurplusAuction{}, DebtV1: map[uint64]auctiontypes.DebtAuction{}, AucV2: map[uint64]auctionsV2types.Auction{},
@@ -140,7 +161,7 @@ func (u *cdpU) snapAt(ctx sdk.Context) *cdpSnap {
 		if f, ok := a.NewaucKeeper.GetAuctionLimitBidFeeDataExternal(ctx, as.ID); ok {
 			s.ExtFees[as.ID] = f.Amount
 		}
-		for _, app := range u.cdpApps {
+		for _, app := range u.reserveApps() {
 			if rf, ok := a.NewliqKeeper.GetAppReserveFunds(ctx, app, as.ID); ok {
 				s.Reserve[appAsset{app, as.ID}] = rf.TokenQuantity.Amount
 			}
@@ -178,6 +199,8 @@ func (u *cdpU) snapAt(ctx sdk.Context) *cdpSnap {
 	for _, m := range cdpModules {
 		rd(modLabel(m), c.ModAddr(m))
 	}
+	// the empty address: a transfer to an address field that was never filled in lands here
+	rd(voidLabel, sdk.AccAddress{})
 	for _, d := range u.denomList() {
 		s.Supply[d] = a.BankKeeper.GetSupply(ctx, d).Amount.BigInt()
 	}
